@@ -70,6 +70,9 @@ def sequences(tier, rng):
                 state = X.tree_to_string(res['tree'])
         if rng.random() < 0.7:
             docs.append(to_text(ro_delete(10 + n)))
+        if s % 7 == 3 and len(docs) > 1:
+            # the same document supplied twice (for from_files: the same path listed twice)
+            docs.append(docs[rng.randrange(1, len(docs))])
         if s % 9 == 4:
             # documents that carry an XML declaration naming their encoding, with text outside ASCII: as str the declared
             # encoding means nothing, as a file / S3 object the bytes are in that encoding
